@@ -124,6 +124,31 @@ SITE_ALLOW = {
 }
 
 
+def _owner_fn(core, cg):
+    """key under which the sites of a function are accounted: a private, non-anchor helper with a single calling function
+    is accounted to that caller (helper extraction must not change the verdict)"""
+    from ..walk import ANCHORS
+    callers = {}
+    for f, es in cg.edges.items():
+        for e in es:
+            callers.setdefault(e, set()).add(f)
+
+    def owner(b, depth=0):
+        if depth > 4 or b.key in ANCHORS or b.vis in (None, "Public") or (b.impl and b.impl.get("trait")) or b.in_trait:
+            if b.kind == "Closure":
+                root = core.bodies.get(b.raw.get("root"))
+                return owner(root, depth + 1) if root is not None and depth <= 4 else b.key
+            return b.key
+        cs = {c for c in callers.get(b.defn, set()) if c != b.defn}
+        roots = {core.bodies[c].raw.get("root") if core.bodies[c].kind == "Closure" else c for c in cs}
+        if len(roots) == 1:
+            (c,) = tuple(roots)
+            if c in core.bodies:
+                return owner(core.bodies[c], depth + 1)
+        return b.key
+    return owner
+
+
 def _operand_ty(o):
     if "const" in o:
         return o["const"]["ty"]["s"]
@@ -266,15 +291,27 @@ def may_panic(an, rep, side, rule_id, min_roots=90, min_reach=100, crate=None, r
     counts = {}
     undisposed = {}
     n_assert = n_panic = n_ext = 0
+    from ..layers import primitive_unit
+    unit = primitive_unit(core) if crate is None else set()
+    owner = _owner_fn(core, cg)
+    n_unit = 0
     for defn, path in sorted(paths.items()):
         b = core.bodies[defn]
-        ex = mir.Expr(b)
+        ex = mir.Expr(b, core)
         facts = guards.edge_conditions(b, ex)
+        in_unit = defn in unit
         for bb in sorted(mir.reachable(b)):
             blk = b.blocks[bb]
             if blk.get("cleanup"):
                 continue
             t = blk["term"]
+            if in_unit and (t["k"] == "assert" or (t["k"] == "call" and "Index" in mir.callee_key(t["callee"]))):
+                # arithmetic and indexing of the primitive layer (the three sources + region bookkeeping and the private
+                # helpers only they use) are discharged as a unit by P4 (overflow-safe guard, cursor update, returned range)
+                # and R3 (coordinate systems)
+                n_unit += 1
+                R.ok(sample={"fn": b.key, "primitive_layer_site": t.get("kind") or mir.callee_key(t["callee"]), "discharged_by": "P4 + R3"})
+                continue
             if t["k"] == "assert":
                 n_assert += 1
                 why = discharge_assert(b, ex, facts, bb, t)
@@ -282,13 +319,13 @@ def may_panic(an, rep, side, rule_id, min_roots=90, min_reach=100, crate=None, r
                     R.ok(sample={"fn": b.key, "assert": t["kind"], "operands": [show(ex.operand(o)) for o in t["ops"]],
                                  "discharged_by": why})
                     continue
-                k = (b.key, t["kind"])
+                k = (owner(b), t["kind"])
                 counts.setdefault(k, []).append((b, bb, t, path))
             elif t["k"] == "call":
                 info = mir.callee_info(t["callee"])
                 if mir.is_panic_callee(info["def"]):
                     n_panic += 1
-                    counts.setdefault((b.key, "panic"), []).append((b, bb, t, path))
+                    counts.setdefault((owner(b), "panic"), []).append((b, bb, t, path))
                     continue
                 if info["local"] or info["def"] in core.bodies:
                     continue
@@ -306,7 +343,7 @@ def may_panic(an, rep, side, rule_id, min_roots=90, min_reach=100, crate=None, r
                     if why:
                         R.ok(sample={"fn": b.key, "call": info["key"], "discharged_by": why})
                         continue
-                    counts.setdefault((b.key, info["key"]), []).append((b, bb, t, path))
+                    counts.setdefault((owner(b), info["key"]), []).append((b, bb, t, path))
     for (fk, kind), sites in sorted(counts.items(), key=lambda kv: kv[0]):
         if kind == "panic":
             allow = PANIC_ALLOW.get(fk)
@@ -330,6 +367,7 @@ def may_panic(an, rep, side, rule_id, min_roots=90, min_reach=100, crate=None, r
                 what += " (allow-list admits %d such site(s) in this function, found %d)" % (allow[0], len(sites))
             R.fail(fk, kind, what, mir.loc(b, bb), {"call_path_from_root": path})
     R.count("asserts", n_assert)
+    R.count("primitive_layer_sites", n_unit)
     R.count("panic_calls", n_panic)
     R.count("documented_may_panic_calls", n_ext)
     return R
@@ -504,7 +542,7 @@ def loops_progress(an, rep):
     return R
 
 
-ACCEPTED_ITERS = ("core::slice::iter::Iter<", "core::slice::iter::IterMut<", "alloc::vec::into_iter::IntoIter<",
+ACCEPTED_ITERS = ("core::array::iter::IntoIter<", "core::slice::iter::Iter<", "core::slice::iter::IterMut<", "alloc::vec::into_iter::IntoIter<",
                   "core::iter::adapters::enumerate::Enumerate<core::slice::iter::Iter<",
                   "desert_core::deserializer::DeserializerIterator<")
 
